@@ -8,6 +8,8 @@
 //   program  generated sequences of navigation operations in the orders real
 //            callers use, checked in lock-step against O-GEO
 #include <cmath>
+#include <cstdlib>
+#include <fstream>
 #include <sstream>
 
 #include "caselog.hh"
@@ -469,16 +471,24 @@ Verdict mode_program(GeoSource& src, Choices& c, CaseLog& log)
                                 + prog.str());
             // expected volume: locate just beyond along the current direction
             LD dl = geo::delta_at(f.model, x);
-            LD eta = 64 * dl;
-            V3 xe = geo::along(x, u, eta);
-            geo::Path op = geo::locate(f.model, xe, 8 * dl);
-            bool judge = !op.ambiguous && !op.overlap && !op.nowhere;
-            if (judge)
+            // Locate at three distances beyond the boundary: 0.01*delta
+            // (inside any sliver thinner than the tolerance; exact arithmetic
+            // decides the side), 2*delta and 8*delta.  The state is judged
+            // only where the two far probes agree (stable region); the
+            // navigator may then report either that volume or the volume of
+            // the near probe (a sliver within the tolerance zone).
+            geo::Path near_p = geo::locate(f.model, geo::along(x, u, dl * 0.01L), dl * 1e-4L);
+            geo::Path mid_p = geo::locate(f.model, geo::along(x, u, 2 * dl), dl * 0.25L);
+            geo::Path op = geo::locate(f.model, geo::along(x, u, 8 * dl), dl);
+            bool judge = !op.ambiguous && !op.overlap && !op.nowhere
+                         && !op.bad_logic && !mid_p.ambiguous
+                         && mid_p.same_as(op);
+            if (judge && !tv.is_outside() && near_p.same_as(f.nav_path())
+                && !near_p.overlap)
             {
-                // make sure no other crossing lies within [0, 2 eta]
-                Exit e = oracle_exit(f, xe, u);
-                if (e.lo < 2 * eta)
-                    judge = false;
+                // thin sliver right behind the boundary: consistent
+                judge = false;
+                log.label("program-sliver");
             }
             if (tv.is_outside())
             {
@@ -695,6 +705,12 @@ Verdict run_case(Choices& c, CaseLog& log)
     Verdict gv = choose_geometry(c, log, src);
     if (gv != Verdict::pass)
         return gv;
+    if (char const* dump = std::getenv("VERIF_DUMP_GEO"))
+    {
+        std::ofstream os(dump);
+        nlohmann::json j = src.fix->input;
+        os << j.dump(0);
+    }
     int mode = int(c.pick({5, 1.5, 3}));
     log.mix(mode);
     try
